@@ -112,58 +112,61 @@ theorem inert_call {H : HostOps σ} [L : HostLaws H] {c : HCall} {k : HAns → P
 
 /-! ### the request monad -/
 
-def InertM (H : HostOps σ) (m : M α) : Prop := ∀ s, Inert H (m s)
-def NeutralM (H : HostOps σ) (m : M α) : Prop := ∀ s, Neutral H (m s)
+/-- (structures, so that `intro` does not unfold them in proof automation) -/
+structure InertM (H : HostOps σ) (m : M α) : Prop where
+  h : ∀ s, Inert H (m s)
+structure NeutralM (H : HostOps σ) (m : M α) : Prop where
+  h : ∀ s, Neutral H (m s)
 
-theorem InertM.neutral {H : HostOps σ} {m : M α} (h : InertM H m) : NeutralM H m := fun s => (h s).neutral
+theorem InertM.neutral {H : HostOps σ} {m : M α} (h : InertM H m) : NeutralM H m := ⟨fun s => (h.h s).neutral⟩
 
 theorem bind_def (m : M α) (f : α → M β) : (m >>= f) = M.bind' m f := rfl
 theorem pure_def (a : α) : (pure a : M α) = M.pure' a := rfl
 
-theorem inertM_pure (H : HostOps σ) (a : α) : InertM H (pure a : M α) := fun _ => inert_pure H _
-theorem inertM_pure' (H : HostOps σ) (a : α) : InertM H (M.pure' a : M α) := fun _ => inert_pure H _
-theorem inertM_throw (H : HostOps σ) (e : Nat) : InertM H (M.throw e : M α) := fun _ => inert_pure H _
-theorem inertM_get (H : HostOps σ) : InertM H M.get := fun _ => inert_pure H _
-theorem inertM_set (H : HostOps σ) (s : PtState) : InertM H (M.set s) := fun _ => inert_pure H _
-theorem inertM_modify (H : HostOps σ) (f : PtState → PtState) : InertM H (M.modify f) := fun _ => inert_pure H _
+theorem inertM_pure (H : HostOps σ) (a : α) : InertM H (pure a : M α) := ⟨fun _ => inert_pure H _⟩
+theorem inertM_pure' (H : HostOps σ) (a : α) : InertM H (M.pure' a : M α) := ⟨fun _ => inert_pure H _⟩
+theorem inertM_throw (H : HostOps σ) (e : Nat) : InertM H (M.throw e : M α) := ⟨fun _ => inert_pure H _⟩
+theorem inertM_get (H : HostOps σ) : InertM H M.get := ⟨fun _ => inert_pure H _⟩
+theorem inertM_set (H : HostOps σ) (s : PtState) : InertM H (M.set s) := ⟨fun _ => inert_pure H _⟩
+theorem inertM_modify (H : HostOps σ) (f : PtState → PtState) : InertM H (M.modify f) := ⟨fun _ => inert_pure H _⟩
 theorem inertM_ofOption (H : HostOps σ) (e : Nat) (o : Option α) : InertM H (M.ofOption e o) := by
-  cases o <;> intro _ <;> exact inert_pure H _
+  cases o <;> exact ⟨fun _ => inert_pure H _⟩
 theorem inertM_ofExcept (H : HostOps σ) (o : Except Nat α) : InertM H (M.ofExcept o) := by
-  cases o <;> intro _ <;> exact inert_pure H _
+  cases o <;> exact ⟨fun _ => inert_pure H _⟩
 
 theorem inertM_sys {H : HostOps σ} [HostLaws H] {c : HCall} (hc : c.isCred = false) : InertM H (M.sys c) :=
-  fun _ => inert_call hc (fun _ => inert_pure H _)
+  ⟨fun _ => inert_call hc (fun _ => inert_pure H _)⟩
 
 theorem inertM_bind {H : HostOps σ} {m : M α} {f : α → M β} (hm : InertM H m) (hf : ∀ a, InertM H (f a)) :
     InertM H (m >>= f) := by
-  intro s
+  refine ⟨fun s => ?_⟩
   show Inert H (M.bind' m f s)
   unfold M.bind'
-  apply inert_bind (hm s)
+  apply inert_bind (hm.h s)
   intro r
   cases h : r.1 with
-  | ok a => simp only []; exact hf a r.2
+  | ok a => simp only []; exact (hf a).h r.2
   | error e => simp only []; exact inert_pure H _
 
 theorem neutralM_bind {H : HostOps σ} {m : M α} {f : α → M β} (hm : NeutralM H m) (hf : ∀ a, NeutralM H (f a)) :
     NeutralM H (m >>= f) := by
-  intro s
+  refine ⟨fun s => ?_⟩
   show Neutral H (M.bind' m f s)
   unfold M.bind'
-  apply neutral_bind (hm s)
+  apply neutral_bind (hm.h s)
   intro r
   cases h : r.1 with
-  | ok a => simp only []; exact hf a r.2
+  | ok a => simp only []; exact (hf a).h r.2
   | error e => simp only []; exact (inert_pure H _).neutral
 
 theorem inertM_try {H : HostOps σ} {m : M α} (hm : InertM H m) : InertM H (M.try' m) := by
-  intro s
+  refine ⟨fun s => ?_⟩
   unfold M.try'
-  exact inert_bind (hm s) (fun _ => inert_pure H _)
+  exact inert_bind (hm.h s) (fun _ => inert_pure H _)
 
 theorem neutralM_try {H : HostOps σ} {m : M α} (hm : NeutralM H m) : NeutralM H (M.try' m) := by
-  intro s
+  refine ⟨fun s => ?_⟩
   unfold M.try'
-  exact neutral_bind (hm s) (fun _ => (inert_pure H _).neutral)
+  exact neutral_bind (hm.h s) (fun _ => (inert_pure H _).neutral)
 
 end Fbr.PtHost
